@@ -8,6 +8,49 @@ import MahfModel.Proofs.C09
 namespace MahfModel.Props.C09
 open MahfModel.Objective
 
+def bInf : UInt64 := 0x7ff0000000000000
+def bNegInf : UInt64 := 0xfff0000000000000
+def bNan : UInt64 := 0x7ff8000000000000
+def bZero : UInt64 := 0x0000000000000000
+def bNegZero : UInt64 := 0x8000000000000000
+def bOne : UInt64 := 0x3ff0000000000000
+def bNegOne : UInt64 := 0xbff0000000000000
+def bNegMax : UInt64 := 0xffefffffffffffff
+def bMax : UInt64 := 0x7fefffffffffffff
+def bTwo : UInt64 := 0x4000000000000000
+def bHalf : UInt64 := 0x3fe0000000000000
+
+/-! ### the decoder is exact -/
+
+/-- Positive finite doubles are ordered like their bit patterns (the decoder places exponent and
+fraction correctly: every step to the next pattern is a strict increase, across binade borders and
+from the subnormals into the normals), the sign bit is exact negation, the two infinities and the
+NaN patterns are where IEEE-754 puts them. -/
+theorem ofBits_order_embedding (m n : Nat) (hmn : m < n) (hn : n < 0x7ff0000000000000) :
+    lt (ofNatBits m) (ofNatBits n) = true := ofNatBits_mono m n hmn hn
+
+theorem ofBits_sign_specials (n : Nat) (h : n < 2 ^ 63) :
+    ofNatBits (n + 2 ^ 63) = negF (ofNatBits n) ∧
+    ofNatBits 0 = .fin 0 ∧ ofNatBits 1 = .fin 1 ∧
+    ofNatBits 0x7ff0000000000000 = .pinf ∧ ofNatBits 0xfff0000000000000 = .ninf ∧
+    (0x7ff0000000000000 < n → ofNatBits n = .nan) := by
+  refine ⟨ofNatBits_sign n h, by decide, by decide, by decide, by decide, ?_⟩
+  intro hn
+  have h1 : n / 2 ^ 52 % 2048 = 2047 := by omega
+  have h2 : n % 2 ^ 52 ≠ 0 := by omega
+  simp [ofNatBits, h1, h2]
+
+/-- The bit patterns that are not legal objective values are exactly −inf and the NaNs. -/
+theorem ofBits_illegal_iff (n : Nat) :
+    legal (ofNatBits n) = false ↔
+      (n / 2 ^ 52 % 2048 = 2047 ∧ (n % 2 ^ 52 ≠ 0 ∨ n / 2 ^ 63 % 2 = 1)) := legal_ofNatBits n
+
+/-- `1.0` is `2^1074` units; `f64::MAX` is `(2^53 − 1) · 2^2045` units, exactly half an ulp (`2^2044`
+units, i.e. `2^970`) below the overflow bound `ovf`. -/
+theorem ofBits_one_and_max :
+    ofBits bOne = .fin scale ∧ (∃ k : Int, ofBits bMax = .fin k ∧ k < ovf ∧ (ovf : Int) - k = 2 ^ 2044) := by
+  refine ⟨by decide +kernel, (2 ^ 53 - 1) * 2 ^ 2045, by decide +kernel, by decide +kernel, by decide +kernel⟩
+
 /-! ### construction -/
 
 /-- Whatever the single-objective constructor lets through is the input itself and is legal. -/
@@ -296,18 +339,6 @@ def arith_closed : Prop :=
   ∀ a b : F64, legal a = true → legal b = true → ∀ s : Bool,
     (addC a b).legal = true ∧ (subC a b).legal = true ∧ (mulC a b).legal = true ∧
     (divC a b s).legal = true ∧ (negC a).legal = true
-
-def bInf : UInt64 := 0x7ff0000000000000
-def bNegInf : UInt64 := 0xfff0000000000000
-def bNan : UInt64 := 0x7ff8000000000000
-def bZero : UInt64 := 0x0000000000000000
-def bNegZero : UInt64 := 0x8000000000000000
-def bOne : UInt64 := 0x3ff0000000000000
-def bNegOne : UInt64 := 0xbff0000000000000
-def bNegMax : UInt64 := 0xffefffffffffffff
-def bMax : UInt64 := 0x7fefffffffffffff
-def bTwo : UInt64 := 0x4000000000000000
-def bHalf : UInt64 := 0x3fe0000000000000
 
 /-- `INFINITY − INFINITY = NaN`. -/
 theorem sub_inf_inf_nan :
